@@ -22,7 +22,9 @@ Mods == {"public", "protected", "private"}
 \* unrelated class X; it runs first in D (allowed) and then, the same code, in X -- the verdict belongs to the
 \* class that executes the code, not to the piece of code
 Sites == {"decl", "sub", "grand", "sibling", "outside", "closure", "shared-trait"}
-InstPaths == {"arrow", "dynamic", "index", "this"}
+\* returned-this: the object is reached through a method that returns $this ($o->self()->member): it is the same
+\* object, reached from the same site, so the same rule applies
+InstPaths == {"arrow", "dynamic", "index", "this", "returned-this"}
 StatPaths == {"scope", "self", "static", "parent"}
 ObjClasses == {"D", "S"}              \* runtime class of the target object / class named in ::
 
@@ -32,7 +34,7 @@ Allowed(mod, site) == CASE mod = "public" -> TRUE
 \* deviation layer: what the pinned interpreter does, as named deviations (each is a known finding)
 VisDevName(x) ==
   IF x.static THEN "static-members-unchecked"
-  ELSE IF x.mod = "private" /\ x.path \in {"arrow", "this", "dynamic"} THEN "private-checked-as-protected"
+  ELSE IF x.mod = "private" /\ x.path \in {"arrow", "this", "dynamic", "returned-this"} THEN "private-checked-as-protected"
   ELSE "none"
 AllowedDev(x) ==
   CASE VisDevName(x) = "static-members-unchecked" -> TRUE
@@ -57,6 +59,7 @@ VisValid(x) ==
   /\ (x.path \in {"self", "static", "parent"} => x.obj = "D")
   \* code in D cannot hold "an S object that is $this"; closures live in D
   /\ (x.site = "closure" => x.path \in {"arrow", "scope"})
+  /\ (x.path = "returned-this" => x.op # "unset")
   /\ (x.site = "shared-trait" => x.path \in {"arrow", "dynamic"} /\ ~x.static)
 
 \* ------------------------------------------------------------------ declared types
